@@ -1079,6 +1079,115 @@ def tail(b):
     return b
 
 
+def stage2_pipeline(F, f, run2ty, mut_names, depth=0):
+    """flattened pass sequence of stage 2 of gen_full_cfg: [(pass short name, call node)].  Helper methods of Manager are
+    inlined; a `loop` whose only exit is taken when an edge count read before the last edge-mutating pass of the body
+    equals the count read after it contributes its body once, with that last mutator marked as a no-op at exit (when the
+    loop is left, its last run changed nothing); any other loop contributes its body twice."""
+    top = f["hir"]["value"]
+    stmts = top.get("stmts", []) + ([{"k": "Expr", "e": top["expr"]}] if top.get("expr") else [])
+    if depth == 0:
+        idx = [i for i, s_ in enumerate(stmts) if s_.get("k") == "Let" and mentions_call(s_.get("init") or {}, "new_with_predefined_call_names")]
+        stmts = stmts[idx[0] + 1:] if idx else []
+    return _pipe_items([s_.get("e") or s_.get("init") or {} for s_ in stmts], F, run2ty, mut_names, depth)
+
+
+def _pipe_items(exprs, F, run2ty, mut_names, depth):
+    out = []
+    for e in exprs:
+        out += _pipe_expr(e, F, run2ty, mut_names, depth)
+    return out
+
+
+def _pipe_expr(e, F, run2ty, mut_names, depth):
+    e = peel(e)
+    k = e.get("k")
+    if k in ("DropTemps", "Use"):
+        return _pipe_expr(e["e"], F, run2ty, mut_names, depth)
+    if k == "Call" and callee_of(e) in run2ty:
+        return [(short(run2ty[callee_of(e)]), e)]
+    if k == "Call" and (callee_of(e) or "").startswith(MANAGER + "::") and callee_of(e) in F.fns and depth < 3 and "hir" in F.fns[callee_of(e)]:
+        g = F.fns[callee_of(e)]
+        inner = stage2_pipeline(F, g, run2ty, mut_names, depth + 1)
+        if inner:
+            return inner
+    if k == "Loop" and e.get("src") != "While" or (k == "Loop"):
+        body = e["body"]
+        bstm = body.get("stmts", []) + ([{"k": "Expr", "e": body["expr"]}] if body.get("expr") else [])
+        items = _pipe_items([s_.get("e") or s_.get("init") or {} for s_ in bstm], F, run2ty, mut_names, depth)
+        if not items:
+            return []
+        if _stable_exit(body, run2ty, mut_names):
+            last = max(i for i, (nm, _) in enumerate(items) if nm in mut_names) if any(nm in mut_names for nm, _ in items) else None
+            if last is not None:
+                nm, node = items[last]
+                node = dict(node)
+                node["__noop_at_exit__"] = True
+                items[last] = (nm, node)
+            return items
+        return items + items
+    if k == "Match" and e.get("src") == "ForLoopDesugar":
+        for fl in for_loops(e):
+            items = _pipe_expr(fl["body"], F, run2ty, mut_names, depth)
+            return items + items
+        return []
+    if k == "Match" and e.get("src") == "TryDesugar":
+        return _pipe_expr(peel(e["scrut"])["args"][0], F, run2ty, mut_names, depth)
+    if k == "Block":
+        bstm = e.get("stmts", []) + ([{"k": "Expr", "e": e["expr"]}] if e.get("expr") else [])
+        return _pipe_items([s_.get("e") or s_.get("init") or {} for s_ in bstm], F, run2ty, mut_names, depth)
+    if k == "If":
+        return _pipe_expr(e["cond"], F, run2ty, mut_names, depth) + _pipe_expr(e["then"], F, run2ty, mut_names, depth) + (_pipe_expr(e["else"], F, run2ty, mut_names, depth) if e.get("else") else [])
+    if k == "Ret" and e.get("e") is not None:
+        return _pipe_expr(e["e"], F, run2ty, mut_names, depth)
+    out = []
+    for key in ("e", "recv", "a", "b", "init"):
+        if isinstance(e.get(key), dict):
+            out += _pipe_expr(e[key], F, run2ty, mut_names, depth)
+    for key in ("args",):
+        for x in e.get(key) or []:
+            if isinstance(x, dict):
+                out += _pipe_expr(x, F, run2ty, mut_names, depth)
+    return out
+
+
+def _stable_exit(body, run2ty, mut_names):
+    """the loop body leaves the loop only under `count_after == count_before`, where `count_before` is bound between the
+    value analysis and the last edge-mutating pass and both counts are computed from the graph's edges (`nexts`/`prevs`)"""
+    stmts = body.get("stmts", []) + ([{"k": "Expr", "e": body["expr"]}] if body.get("expr") else [])
+    exits = [n for s_ in stmts for n in walk(s_, pats=False) if n.get("k") in ("Break", "Ret")]
+    # `?` desugars to a `return` of the error: ignore exits inside TryDesugar matches
+    tryrets = set()
+    for s_ in stmts:
+        for m in walk(s_, pats=False):
+            if m.get("k") == "Match" and m.get("src") == "TryDesugar":
+                tryrets |= {id(n) for n in walk(m, pats=False) if n.get("k") in ("Break", "Ret")}
+    exits = [n for n in exits if id(n) not in tryrets]
+    if len(exits) != 1:
+        return False
+    # the exit must be the tail of the body, guarded by an If whose condition is an equality with a local bound earlier in the body
+    last = peel((stmts[-1].get("e") or {}))
+    if last.get("k") != "If" or not any(n is exits[0] for n in walk(last["then"], pats=False)) or last.get("else") is not None:
+        return False
+    c = peel(last["cond"])
+    while c.get("k") in ("DropTemps", "Use"):
+        c = peel(c["e"])
+    if not (c.get("k") == "Binary" and c["op"] == "Eq"):
+        return False
+    lets = {}
+    for i, s_ in enumerate(stmts):
+        if s_.get("k") == "Let" and s_["pat"].get("k") == "PBinding":
+            lets[s_["pat"]["name"]] = i
+    sides = [peel(c["a"]), peel(c["b"])]
+    before = [x for x in sides if x.get("k") == "Path" and x.get("res") in lets]
+    if len(before) != 1:
+        return False
+    bi = lets[before[0]["res"]]
+    # the mutating pass sits between the binding and the test
+    mut_idx = [i for i, s_ in enumerate(stmts) for n in walk(s_, pats=False) if n.get("k") == "Call" and callee_of(n) in run2ty and short(run2ty[callee_of(n)]) in mut_names]
+    return bool(mut_idx) and all(bi < i < len(stmts) - 1 for i in mut_idx[-1:]) and bi > min([i for i, s_ in enumerate(stmts) for n in walk(s_, pats=False) if n.get("k") == "Call" and callee_of(n) in run2ty] or [99])
+
+
 @rule("C12", "C12.c.pipeline-typestate", floor=6)
 def c12c(F, R):
     """in gen_full_cfg every edge-mutating pass is followed by a value analysis, liveness runs last, and both stages build the CFG from the same nodes"""
@@ -1094,20 +1203,7 @@ def c12c(F, R):
         seen, _ = F.reachable([rp])
         if seen & set(muts):
             reach_mut.add(t)
-    # stage 2 = statements of the outermost block after `let mut cfg = Cfg::new_with_predefined_call_names`
-    top = f["hir"]["value"]
-    seq = []
-    stage2 = False
-    for s in top.get("stmts", []) + ([{"k": "Expr", "e": top["expr"]}] if top.get("expr") else []):
-        if s.get("k") == "Let" and mentions_call(s.get("init") or {}, "new_with_predefined_call_names"):
-            stage2 = True
-            continue
-        if not stage2:
-            continue
-        e = s.get("e") or s.get("init") or {}
-        for n in walk(e):
-            if n.get("k") == "Call" and callee_of(n) in run2ty:
-                seq.append((short(run2ty[callee_of(n)]), n))
+    seq = stage2_pipeline(F, f, run2ty, {short(t) for t in reach_mut})
     names = [x for x, _ in seq]
     if not names:
         R.bad("stage2", "UNEXTRACTABLE: no pass sequence found in stage 2 of gen_full_cfg", f["sp"])
@@ -1115,6 +1211,9 @@ def c12c(F, R):
     R.note("stage-2 pipeline: " + " -> ".join(names))
     mut_names = {short(t) for t in reach_mut}
     for i, (nm, n) in enumerate(seq):
+        if nm in mut_names and isinstance(n, dict) and n.get("__noop_at_exit__"):
+            R.ok(f"after|{nm}|{names[:i].count(nm) + 1}", detail=f"{nm} ends a loop that is only left when it changed no edge: the facts of the value analysis before it describe the final graph")
+            continue
         if nm in mut_names:
             later = names[i + 1:]
             key = f"after|{nm}|{names[:i].count(nm) + 1}"
@@ -1132,7 +1231,7 @@ def c12c(F, R):
         R.bad("liveness-last", f"LivenessPass is not the single last pass of the pipeline ({names})", f["sp"])
     # both stages from the same `nodes`
     ctor_args = []
-    for n in walk(top):
+    for n in walk(f["hir"]["value"]):
         if n.get("k") == "Call" and short(callee_of(n) or "") in ("new", "new_with_predefined_call_names") and (callee_of(n) or "").startswith(CFG):
             ctor_args.append(ekey(n["args"][0]))
     if len(ctor_args) == 2 and len(set(ctor_args)) == 1:
@@ -1586,3 +1685,35 @@ def c01i(F, R):
             R.ok(key, detail=f"sw {rs2.lower()}, 8(sp) -> slot 8 := {val[1]}({rs2}, {val[3] if len(val) > 3 else ''})")
         else:
             R.bad(key, f"`sw {rs2.lower()}, 8(sp)` generates {r}: not the slot `8` holding the stored register", gp["sp"])
+
+
+@rule("C11", "C11.f.markup-runs-on-the-pruned-graph", floor=1)
+@rule("C12", "C12.f.markup-runs-on-the-pruned-graph", floor=1)
+def c11f(F, R):
+    """function membership is computed by walking `nexts`: FunctionMarkupPass must run after a value analysis and the exit-ecall cut that depends on it, or code after an exit ecall inside a function is attributed to it (and to the function that follows)"""
+    gp = inherent_methods(F, MANAGER).get("gen_full_cfg")
+    if not gp:
+        raise Anchor("Manager::gen_full_cfg not found")
+    f = F.fn(gp)
+    gens = pass_impls(F, GENPASS)
+    run2ty = {v: t for t, v in gens.items()}
+    muts = edge_mutators(F)
+    reach_mut = set()
+    for t, rp in gens.items():
+        seen, _ = F.reachable([rp])
+        if seen & set(muts):
+            reach_mut.add(short(t))
+    names = [nm for nm, _ in stage2_pipeline(F, f, run2ty, reach_mut)]
+    if "FunctionMarkupPass" not in names:
+        R.bad("markup", "FunctionMarkupPass is not part of the pipeline", f["sp"])
+        return
+    k = names.index("FunctionMarkupPass")
+    before = names[:k]
+    okk = False
+    if "EcallTerminationPass" in before:
+        j = max(i for i, n_ in enumerate(before) if n_ == "EcallTerminationPass")
+        okk = "AvailableValuePass" in before[:j] and "NodeDirectionPass" in before[:j]
+    if okk:
+        R.ok("markup", detail="pipeline: " + " -> ".join(names))
+    else:
+        R.bad("markup", f"FunctionMarkupPass runs before the first `AvailableValuePass -> EcallTerminationPass` round ({' -> '.join(names)}): it walks the fall-through edge after a known exit ecall, so a function that contains `li a7, 93; ecall` swallows the code (and the next function) behind it", f["sp"])
